@@ -13,6 +13,7 @@ import (
 	"strings"
 	"sync"
 	"testing"
+	"time"
 
 	"github.com/gotid/god/api/httpx"
 	"github.com/gotid/god/api/router"
@@ -27,6 +28,91 @@ type verifCase struct {
 	Method  string         `json:"method"`  // http method
 	Pattern string         `json:"pattern"` // route with :name segments, e.g. /api/:id/items/:name
 	Direct  *verifDirect   `json:"direct"`  // httpx.Parse called directly on a constructed request
+	Conc    *verifConc     `json:"conc"`    // two overlapping requests to the same route
+}
+
+// verifConc: request A is routed and held inside its handler while request B (other path values) is routed, handled
+// and answered; only then A parses its request.  Each must see its own path variables.
+type verifConc struct {
+	A any `json:"a"`
+	B any `json:"b"`
+}
+
+func verifConcRun(srv *httptest.Server, setHandler func(http.Handler), c *verifCase) map[string]any {
+	var typ reflect.Type
+	if panicked, pv := verifdrv.Catch(func() { typ = c.Shape.Build() }); panicked {
+		return map[string]any{"error": "shape: " + pv}
+	}
+	mk := func(val any) (reflect.Value, error) {
+		v := reflect.New(typ)
+		return v, c05shape.Fill(v.Elem(), val)
+	}
+	va, err := mk(c.Conc.A)
+	if err != nil {
+		return map[string]any{"error": err.Error()}
+	}
+	vb, err := mk(c.Conc.B)
+	if err != nil {
+		return map[string]any{"error": err.Error()}
+	}
+	entered, gate := make(chan struct{}), make(chan struct{})
+	var mu sync.Mutex
+	parsed := map[string]map[string]any{}
+	rt := router.NewRouter()
+	err = rt.Handle(c.Method, c.Pattern, http.HandlerFunc(func(w http.ResponseWriter, r *http.Request) {
+		who := r.Header.Get("X-Verif-Req")
+		if who == "A" {
+			close(entered)
+			select {
+			case <-gate:
+			case <-time.After(10 * time.Second):
+			}
+		}
+		res := c05shape.RunInto(typ, func(v any) error { return httpx.Parse(r, v) })
+		mu.Lock()
+		parsed[who] = res
+		mu.Unlock()
+	}))
+	if err != nil {
+		return map[string]any{"error": "route: " + err.Error()}
+	}
+	setHandler(rt)
+	send := func(who string, v reflect.Value) error {
+		req, err := buildRequest(context.Background(), c.Method, srv.URL+c.Pattern, v.Interface())
+		if err != nil {
+			return err
+		}
+		req.Header.Set("X-Verif-Req", who)
+		resp, err := DoRequest(req)
+		if err != nil {
+			return err
+		}
+		return resp.Body.Close()
+	}
+	doneA := make(chan error, 1)
+	go func() { doneA <- send("A", va) }()
+	select {
+	case <-entered:
+	case <-time.After(10 * time.Second):
+		return map[string]any{"error": "request A never reached its handler"}
+	}
+	errB := send("B", vb)
+	close(gate)
+	errA := <-doneA
+	out := map[string]any{"orig_a": c05shape.Dump(va.Elem()), "orig_b": c05shape.Dump(vb.Elem())}
+	mu.Lock()
+	defer mu.Unlock()
+	for who, e := range map[string]error{"A": errA, "B": errB} {
+		key := strings.ToLower(who)
+		if e != nil {
+			out[key] = map[string]any{"r": "err", "msg": "send: " + e.Error()}
+		} else if p, ok := parsed[who]; ok {
+			out[key] = p
+		} else {
+			out[key] = map[string]any{"r": "err", "msg": "not handled"}
+		}
+	}
+	return out
 }
 
 // verifDirect describes a request handed to httpx.Parse without a transport: a GET query, a POST form body, or a
@@ -94,6 +180,13 @@ func TestVerifDriver(t *testing.T) {
 		var c verifCase
 		if err := json.Unmarshal(raw, &c); err != nil {
 			return map[string]any{"error": err.Error()}
+		}
+		if c.Conc != nil {
+			return map[string]any{"conc": verifConcRun(srv, func(h http.Handler) {
+				mu.Lock()
+				current = h
+				mu.Unlock()
+			}, &c)}
 		}
 		if c.Direct != nil {
 			var typ reflect.Type
